@@ -7,6 +7,10 @@ the RWMutex, then receive the token back.  Readers take the token too, so every 
 serialised by it.  A `select` with several ready cases picks any of them (`alt`).
 Every call has its own context (`ctxDone t`), cancelled by the environment at any time, possibly
 before the call (`pre`).
+The token channel has the trusted channel semantics of `FifoMutex`: a `select` none of whose cases
+is ready parks the caller at the tail of the channel's FIFO `sendq`; the receive in
+`Unlock/RUnlock` hands the slot to the head of `sendq` in the same step; a parked caller whose
+context ends removes itself from the queue.
 -/
 namespace Kit.Locks.Context
 open Kit.Locks
@@ -15,7 +19,8 @@ inductive Mode where | w | r deriving DecidableEq, Repr
 
 inductive PC where
   | idle
-  | called (md : Mode)      -- at the select
+  | called (md : Mode)      -- at the select, before it has polled its cases
+  | queued (md : Mode)      -- parked in the select: in the token channel's sendq and on ctx.Done()
   | haveTok (md : Mode)     -- token sent, before lock.Lock()/RLock()
   | granted (md : Mode)     -- acquired, not yet returned
   | errRet                  -- chose ctx.Done(): about to return ctx.Err()
@@ -28,6 +33,7 @@ inductive PC where
 structure State where
   n : Nat
   tok : Option Tid
+  sendq : List Tid
   w : Option Tid
   rs : List Tid
   ctxDone : Nat → Bool
@@ -41,10 +47,12 @@ inductive Op where
 inductive Env where | cancel (t : Tid) deriving DecidableEq, Repr
 
 /-- result of a call: `true` = an error was returned -/
-abbrev L := Lbl Op Bool Unit Env
+inductive Probe where | blocked deriving DecidableEq, Repr
+
+abbrev L := Lbl Op Bool Probe Env
 
 def init (n : Nat) : State :=
-  { n := n, tok := none, w := none, rs := [], ctxDone := fun _ => false, pcs := fun _ => .idle }
+  { n := n, tok := none, sendq := [], w := none, rs := [], ctxDone := fun _ => false, pcs := fun _ => .idle }
 
 def step (s : State) : L → Option State
   | .call t (.lock md pre) =>
@@ -66,7 +74,13 @@ def step (s : State) : L → Option State
       else                      -- case c.locked <- struct{}{}
         match s.tok with
         | none => some { s with tok := some t, pcs := upd s.pcs t (.haveTok md) }
-        | some _ => none
+        | some _ =>               -- no case ready: park on both
+          if s.ctxDone t then none
+          else some { s with sendq := s.sendq ++ [t], pcs := upd s.pcs t (.queued md) }
+    | .queued _ =>              -- woken by ctx.Done(): leave the queue
+      if alt = 0 && s.ctxDone t then
+        some { s with sendq := s.sendq.erase t, pcs := upd s.pcs t .errRet }
+      else none
     | .haveTok .w =>            -- c.lock.Lock()
       if s.w.isNone && s.rs.isEmpty then some { s with w := some t, pcs := upd s.pcs t (.granted .w) } else none
     | .haveTok .r =>            -- c.lock.RLock()
@@ -79,9 +93,16 @@ def step (s : State) : L → Option State
       match s.rs with
       | [] => none
       | _ :: rest => some { s with rs := if t ∈ s.rs then s.rs.erase t else rest, pcs := upd s.pcs t (.ulRw .r) }
-    | .ulRw _ =>                -- <-c.locked
+    | .ulRw _ =>                -- <-c.locked: the slot goes to the head of the sendq, if any
       match s.tok with
-      | some _ => some { s with tok := none, pcs := upd s.pcs t .ulDone }
+      | some _ =>
+        match s.sendq with
+        | [] => some { s with tok := none, pcs := upd s.pcs t .ulDone }
+        | h :: rest =>
+          match s.pcs h with
+          | .queued md => some { s with tok := some h, sendq := rest,
+                                        pcs := upd (upd s.pcs t .ulDone) h (.haveTok md) }
+          | _ => none
       | none => none
     | _ => none
   | .ret t err =>
@@ -90,7 +111,10 @@ def step (s : State) : L → Option State
     | .errRet, true => some { s with pcs := upd s.pcs t .idle }
     | .ulDone, false => some { s with pcs := upd s.pcs t .idle }
     | _, _ => none
-  | .probe _ _ => none
+  | .probe t .blocked =>       -- the runtime shows the caller parked in the select
+    match s.pcs t with
+    | .queued _ => some s
+    | _ => none
   | .sys _ _ => none
 
 def lts : LTS State L := ⟨step⟩
@@ -103,7 +127,7 @@ def PC.holds : PC → Bool
 def taus (s : State) : List L := (List.range s.n).flatMap (fun t => [.tau t 0, .tau t 1])
 
 instance : BEq State where
-  beq a b := a.n == b.n && a.tok == b.tok && a.w == b.w && a.rs == b.rs &&
+  beq a b := a.n == b.n && a.tok == b.tok && a.sendq == b.sendq && a.w == b.w && a.rs == b.rs &&
     eqUpTo a.n a.ctxDone b.ctxDone && eqUpTo a.n a.pcs b.pcs
 
 def sim : Sim State L := { M := lts, internal := Lbl.internal, taus := taus }
